@@ -332,6 +332,48 @@ func runC20(c *Ctx) {
 			h.key = fmt.Sprintf("%s@%s:%s", h.name, p.FuncKey(callers[0]), h.kind)
 		}
 	}
+	// A listed access whose function no longer exists under that name, together with exactly one unlisted access of
+	// the same field and kind, is that function renamed: the listed key is kept. (If the listed function still
+	// exists - e.g. it was repaired - nothing is paired and the new access is reported.)
+	{
+		allKeys := map[string]bool{}
+		for _, f := range p.Funcs {
+			allKeys[p.FuncKey(f)] = true
+		}
+		reported := map[string]bool{}
+		for _, h := range hits {
+			if !h.ok {
+				reported[h.key] = true
+			}
+		}
+		stale := map[string][]string{} // name:kind -> listed keys whose function is gone
+		for _, k := range c.KnownConstructs(rG) {
+			at := strings.Index(k, "@")
+			col := strings.LastIndex(k, ":")
+			if at < 0 || col < at || reported[k] {
+				continue
+			}
+			fn := k[at+1 : col]
+			if !allKeys[fn] {
+				nk := k[:at] + ":" + k[col+1:]
+				stale[nk] = append(stale[nk], k)
+			}
+		}
+		fresh := map[string][]int{}
+		for i, h := range hits {
+			if !h.ok && h.kind != "" && h.fn != nil && !c.IsKnown(rG, h.key) {
+				nk := h.name + ":" + h.kind
+				fresh[nk] = append(fresh[nk], i)
+			}
+		}
+		for nk, idx := range fresh {
+			if len(idx) == 1 && len(stale[nk]) == 1 {
+				h := &hits[idx[0]]
+				h.detail += " (listed under the former name of " + p.FuncKey(h.fn) + ")"
+				h.key = stale[nk][0]
+			}
+		}
+	}
 	sort.Slice(hits, func(i, j int) bool { return hits[i].key < hits[j].key })
 	for _, h := range hits {
 		c.Check(h.ok, rG, h.key, h.pos, "designated lock held", h.detail+" (concurrent API calls / life-cycle events race on it; for maps this is a fatal runtime error)")
@@ -547,6 +589,9 @@ func (s *Sel) checkSendAfterClose(c *Ctx, ls *Locksets) {
 		})
 	}
 	n := 0
+	seenPair := map[string]bool{}
+	pairPos := map[string]string{}
+	pairDetail := map[string]string{}
 	for _, id := range SortedKeys(closes) {
 		snd := sends[id]
 		if len(snd) == 0 {
@@ -573,11 +618,28 @@ func (s *Sel) checkSendAfterClose(c *Ctx, ls *Locksets) {
 					// the send is dominated by a branch (flag test)
 					flagOK = len(GuardsOf(sd.in)) > 0
 				}
-				key := fmt.Sprintf("%s:close@%s:send@%s", id, p.FuncKey(cl.f), p.FuncKey(sd.f))
-				c.Check(common && flagOK, rule, key, p.InstrPos(sd.in), "send and close are serialised by a common mutex with a closed-flag test",
-					"the channel is closed at "+p.InstrPos(cl.in)+" and sent to here without a common mutex + closed-flag: a send on the closed channel panics (crashes the supervisor)")
+				// keyed by channel and sending function (closures by their enclosing function, without their index)
+				top := sd.f
+				for top.Parent() != nil {
+					top = top.Parent()
+				}
+				sender := p.FuncKey(top)
+				if top != sd.f {
+					sender += "$closure"
+				}
+				key := fmt.Sprintf("%s:send@%s", id, sender)
+				okPair := common && flagOK
+				if prev, dup := seenPair[key]; dup && (!prev || okPair) {
+					continue // keep the worst verdict per key
+				}
+				seenPair[key] = okPair
+				pairPos[key] = p.InstrPos(sd.in)
+				pairDetail[key] = "the channel is closed at " + p.InstrPos(cl.in) + " (" + p.FuncKey(cl.f) + ") and sent to here without a common mutex + closed-flag: a send on the closed channel panics (crashes the supervisor)"
 			}
 		}
+	}
+	for _, key := range SortedKeys(seenPair) {
+		c.Check(seenPair[key], rule, key, pairPos[key], "send and close are serialised by a common mutex with a closed-flag test", pairDetail[key])
 	}
 	c.Floor(rule, 2, "close/send pairs")
 }
@@ -791,7 +853,7 @@ func (s *Sel) checkBlockingUnderLocksFiltered(c *Ctx, ls *Locksets, ruleID strin
 			var hs []string
 			for _, h := range held {
 				if h.Field != nil && short[h.Field] {
-					hs = append(hs, h.Field.Name())
+					hs = append(hs, p.CanonName(h.Field))
 				}
 			}
 			if len(hs) == 0 {
